@@ -3,7 +3,9 @@ SIM = ("Trusted base: the simulated pika broker and the time model of DESIGN.md 
        "RabbitMQ offline); virtual clock/uuid seams; CPython. Bounds: the scenario corpus named in the evidence file.")
 ENGINES = [
     {"name": "explorer", "path": "harness/explorer.py", "kind_free_text": "stateless DFS explicit-state model checker over the real engine on a simulated broker (replay + fingerprint dedup + deviation bound)",
-     "serves_properties": ["C03"]},
+     "serves_properties": ["C03", "C08"]},
+    {"name": "enumerator", "path": "checks/common.py", "kind_free_text": "exhaustive small-scope enumeration of inputs/programs from a stated finite alphabet, each evaluated on the real code and on a reference model under /verif/ref",
+     "serves_properties": ["C08", "C12"]},
 ]
 CHECKS = {
     "C03": {
@@ -14,6 +16,24 @@ CHECKS = {
         "note": SIM,
         "technique": "explicit-state model checking of the implementation (exhaustive interleaving exploration with state fingerprints)",
     },
+}
+ENUM = ("Trusted base: the hand-written reference model under /verif/ref (kept deliberately boring and self-tested), CPython. "
+        "Bounds: the finite alphabet stated in the evidence file's rule; values outside it are not covered.")
+CHECKS["C12"] = {
+    "engine": "enumerator",
+    "text": "Small-scope exhaustive enumeration (bounded model checking of a pure function against a reference model): every document of a finite alphabet x every "
+            "reference path of length <= 3 in dot/bracket/index notation x results that are fresh values, the input itself or sub-trees of it, through the real "
+            "apply_jsonpath / apply_path / apply_resultpath; read, put-get, frame, finiteness, '$', null and '$$' laws compared with ref/jsonpath.py. Known defects are "
+            "matched only through exact defect models.",
+    "note": ENUM,
+    "technique": "exhaustive small-scope enumeration of inputs against a reference model (bounded model checking, explicit enumeration)",
+}
+CHECKS["C08"] = {
+    "engine": "enumerator+explorer",
+    "text": "RFC 3339 clause: every UTC offset -23:59..+23:59 at minute granularity x fraction forms x Z forms, enumerated exhaustively through the real parser and compared "
+            "with an exact rational reference. (Firing-instant clauses: explored on the virtual clock, see evidence.)",
+    "note": ENUM + " " + SIM,
+    "technique": "exhaustive enumeration of the timestamp grammar against an exact reference; explicit-state exploration of timer/reply orders on a virtual clock",
 }
 NA = {}
 NOTES = "All checks run the real code of /repo's working tree (imported by path) over /verif/sim; see DESIGN.md."
